@@ -980,4 +980,60 @@ theorem attrStep_unrevealed {r : Request} {c : HeldW3C} {ref : String}
 
 end Disclosure
 
+/-! ## 6. the outputs do not depend on link secret, session, numbering -/
+
+theorem buildSub_indep (schemaAttrs : List String) (sym : SymCred) (names : List String)
+    (preds : List Pred) (nrp : Option SymNrp) (h s u h' s' u' : Nat) :
+    buildSub schemaAttrs sym names preds nrp h s u =
+      (buildSub schemaAttrs sym names preds nrp h' s' u').map
+        (fun sub => { sub with ms := (h, s), uid := u }) := by
+  unfold buildSub
+  simp only []
+  split
+  · rfl
+  · split
+    · rfl
+    · split
+      · rfl
+      · split
+        · rfl
+        · split
+          · rfl
+          · split <;> rfl
+
+theorem addSubProof_indep (pc : PCtx) (r : Request) (sl : Selected) (h s u h' s' u' : Nat) :
+    addSubProof pc r sl h s u =
+      (addSubProof pc r sl h' s' u').map (fun sub => { sub with ms := (h, s), uid := u }) := by
+  unfold addSubProof
+  split
+  · rfl
+  · split
+    · rfl
+    · split
+      · exact buildSub_indep ..
+      · rfl
+
+theorem mapM_indep {α β γ : Type} {f f' : α → Option β} {vis : β → γ}
+    (hf : ∀ a, ∃ g : β → β, f' a = (f a).map g ∧ ∀ b, vis (g b) = vis b) :
+    ∀ {l : List α} {r : List β}, l.mapM f = some r → ∃ r', l.mapM f' = some r' ∧ r'.map vis = r.map vis := by
+  intro l
+  induction l with
+  | nil => intro r h; simp at h; subst h; exact ⟨[], rfl, rfl⟩
+  | cons a l ih =>
+    intro r h
+    rw [List.mapM_cons] at h
+    cases hfa : f a with
+    | none => simp [hfa] at h
+    | some b =>
+      cases hl : l.mapM f with
+      | none => simp [hfa, hl] at h
+      | some bs =>
+        simp [hfa, hl] at h
+        subst h
+        obtain ⟨g, hg, hv⟩ := hf a
+        obtain ⟨r', hr', hvis⟩ := ih hl
+        refine ⟨g b :: r', ?_, ?_⟩
+        · rw [List.mapM_cons, hg, hfa, hr']; rfl
+        · simp [hv, hvis]
+
 end AnonModel.Prover
